@@ -190,3 +190,44 @@ func VerifC14OwnQueueFull() {
 	}
 	vCover("c14-own-queue-full-end")
 }
+
+// VerifC14StrayAcks: a client sends acknowledgements that answer nothing (PUBACK / PUBCOMP
+// for ids that are not in flight), more of them than the inflight window (1) has slots. The
+// broker keeps serving it (PINGREQ answered, DISCONNECT honoured), no goroutine stays
+// blocked, the connection is released - and the stray acknowledgements create no extra
+// window slots: afterwards still only one QoS 1 message is in flight at a time (C16).
+func VerifC14StrayAcks() {
+	be := newRecBackend()
+	be.ClientInflightMessages = 1
+	c, conn := startClient(be, mkConnect("c", vBool("clean"), nil), false)
+	s := packet.NewSubscribe()
+	s.ID = 1
+	s.Subscriptions = []packet.Subscription{{Topic: "t", QOS: 1}}
+	conn.in <- s
+	vQuiesce()
+	n := vLen("strays", 1, 3)
+	for i := 0; i < n; i++ {
+		if vBool("pubcomp") {
+			conn.in <- &packet.Pubcomp{ID: packet.ID(100 + i)}
+		} else {
+			conn.in <- &packet.Puback{ID: packet.ID(100 + i)}
+		}
+		vQuiesce()
+	}
+	vAssert(!conn.isClosed(), "stray acknowledgements do not close the connection")
+	conn.in <- packet.NewPingreq()
+	vQuiesce()
+	vAssert(countType(conn, packet.PINGRESP) == 1, "the broker still answers the client")
+	pub, _ := mkClient(be.MemoryBackend, "p", true)
+	for i := 0; i < 2; i++ {
+		vAssert(be.MemoryBackend.Publish(pub, &packet.Message{Topic: "t", Payload: []byte{byte(i)}, QOS: 1}, nil) == nil, "publish")
+		vQuiesce()
+	}
+	vAssert(countType(conn, packet.PUBLISH) == 1, "stray acknowledgements create no window slots: one message in flight")
+	conn.in <- packet.NewDisconnect()
+	vQuiesce()
+	vAssert(conn.isClosed() && chanClosed(c.Closed()), "DISCONNECT is honoured: connection closed, closed signal fires")
+	vAssert(be.terminatesOf(c) == 1, "the backend is told about the termination exactly once")
+	vAssert(vLive() == 0, "no goroutine is left blocked")
+	vCover("c14-stray-acks-end")
+}
